@@ -1,5 +1,7 @@
 package main
 
+import "math"
+
 func init() {
 	generators["C04"] = genC04
 	generators["C05"] = genC05
@@ -34,6 +36,8 @@ func (g *Gen) keyFrame(n, card int, cols string) Step {
 					d.Floats[j] = "bits:0x7ff8000000000001" // another NaN payload
 				case k == card+2:
 					d.Floats[j] = "-0"
+				case k%7 == 3 && card > 2:
+					d.Floats[j] = []string{"+Inf", "-Inf"}[k%2] // equal infinities are one key
 				default:
 					d.Floats[j] = fmtFloat(float64(k) * 0.5)
 				}
@@ -100,6 +104,7 @@ func genC04(g *Gen) {
 			g.do(Step{Op: "QFrames", Recv: gid})
 		}
 	})
+	g.aggExtremes()
 	g.d21Witness("GroupBy")
 	g.runsWithHoles("GroupBy", toBS("rid"))
 	g.keyProducts("GroupBy", toBS("rid"))
@@ -273,7 +278,7 @@ func (g *Gen) keyProducts(op string, rid BS) {
 		case "float":
 			v := make([]string, n)
 			for i, c := range codes {
-				v[i] = []string{"NaN", "0", "1.5"}[c+1]
+				v[i] = []string{"NaN", "+Inf", "1.5"}[c+1]
 			}
 			st.Data = append(st.Data, ColData{Name: toBS(name), Kind: "float", Floats: v})
 		case "bool":
@@ -452,6 +457,30 @@ func (g *Gen) d21Witness(op string) {
 			Data: []ColData{{Name: toBS("E"), Kind: "string", Strs: strs}}})
 		u := g.do(Step{Op: "Apply", Recv: f, Instrs: []Instr{{Fn: FnRef{K: "builtin", Sym: "ToUpper"}, Dst: toBS("E"), Src1: toBS("E")}}})
 		g.do(Step{Op: op, Recv: u, Cols: bsList([]string{"E"}), Opts: []int{77}})
+		g.end()
+	}
+}
+
+// aggExtremes: built-in aggregations over groups holding the ends of the int and float ranges
+func (g *Gen) aggExtremes() {
+	ints := []int64{math.MaxInt64, -1, math.MinInt64, 0, 1 << 62, -(1 << 62), 5, math.MaxInt64 - 1, math.MinInt64 + 1}
+	floats := []string{"1.7976931348623157e308", "-1", "-1.7976931348623157e308", "0", "1e300", "-1e300", "5", "4.9e-324", "-4.9e-324"}
+	for rep := 0; rep < g.pick(12, 120); rep++ {
+		n := 2 + g.rng.Intn(7)
+		k, a := make([]int64, n), make([]int64, n)
+		f := make([]string, n)
+		for i := range k {
+			k[i], a[i], f[i] = int64(g.rng.Intn(2)), ints[g.rng.Intn(len(ints))], floats[g.rng.Intn(len(floats))]
+		}
+		g.begin("aggregation extremes")
+		fr := g.do(Step{Op: "New", Recv: -1, HasOrder: true, ColOrder: bsList([]string{"K", "A", "F"}),
+			Data: []ColData{{Name: toBS("K"), Kind: "int", Ints: k}, {Name: toBS("A"), Kind: "int", Ints: a}, {Name: toBS("F"), Kind: "float", Floats: f}}})
+		for _, keys := range [][]string{{"K"}, {}} {
+			g.do(Step{Op: "GroupBy", Recv: fr, Cols: bsList(keys)})
+			gid := len(g.x.groupers) - 1
+			g.do(Step{Op: "Aggregate", Recv: gid, Aggs: []Agg{{Fn: FnRef{K: "builtin", Sym: "max"}, Col: toBS("A")}, {Fn: FnRef{K: "builtin", Sym: "min"}, Col: toBS("A"), As: toBS("mn")},
+				{Fn: FnRef{K: "builtin", Sym: "max"}, Col: toBS("F"), As: toBS("fmax")}, {Fn: FnRef{K: "builtin", Sym: "min"}, Col: toBS("F"), As: toBS("fmin")}, {Fn: FnRef{K: "builtin", Sym: "count"}, Col: toBS("A"), As: toBS("n")}}})
+		}
 		g.end()
 	}
 }
